@@ -37,7 +37,7 @@ BUILTIN_BASES = {
     "ImportError": ["Exception"], "BinasciiError": ["ValueError"], "JSONDecodeError": ["ValueError"],
     "XmlParseError": ["Exception"], "YamlError": ["Exception"], "BsonError": ["Exception"],
     "PickleError": ["Exception"], "SystemExit": ["BaseException"], "OtherError": ["Exception"],
-    "Namespace": ["object"], "ArgumentParser": ["object"], "Element": ["object"], "File": ["object"],
+    "Namespace": ["object"], "ArgumentParser": ["object"], "Element": ["object"], "ParseError": ["Exception"], "File": ["object"],
     "Hasher": ["object"], "Cipher": ["object"], "CipherCtx": ["object"], "Padder": ["object"],
     "Pattern": ["object"], "IPv4Address": ["object"], "IPv4Network": ["object"], "ParseResult": ["object"],
     "SecureValue": ["tuple"], "TDigestValue": ["tuple"], "partial": ["object"],
